@@ -68,7 +68,11 @@ func (e *Engine) oblige(fr *Frame, st *State, kind, detail string, site int, goa
 	if o.Props == nil && top.fc != nil {
 		base := strings.SplitN(kind, ":", 2)[0]
 		base = strings.SplitN(base, "#", 2)[0]
-		if safetyKinds[base] {
+		if base == "slice-alias" {
+			// a failed slice-alias obligation means the engine's model of this function is not what Go does: it concerns
+			// every property the function takes part in
+			o.Props = top.fc.Props
+		} else if safetyKinds[base] {
 			o.Props = strings.Fields(top.fc.Options["safetyprops"])
 		} else {
 			o.Props = top.fc.Props
